@@ -198,6 +198,23 @@ def run(tier, replay):
             if p.get("prog"):
                 feats |= features.of_prog(p["prog"])
             b = sorted(static_b[sid]) if static else [r for r in dyn if r["id"] == sid][0]["b"]
+            # which stacks are involved: tuple = [addr, ctx, gosub, calldepth, val, reg, vp, byref, arg]
+            comp = {4: "val", 5: "reg", 6: "vp", 7: "byref", 8: "arg"}
+            if tag == "DIRTY":
+                for t in b:
+                    for i in (6, 7, 8):
+                        if t[i] != 0:
+                            feats.add("dirty:" + comp[i])
+            else:
+                seen = {}
+                for t in b:
+                    key = (t[0], t[1], t[2], t[3])
+                    if key in seen:
+                        for i in (4, 5, 6, 7, 8):
+                            if seen[key][i] != t[i]:
+                                feats.add("incons:" + comp[i])
+                    else:
+                        seen[key] = t
             rep.violation({"source": p["src"], "rendered_text": p["text"], "finding": tag,
                            "boundary_tuples": "[addr, ctx, gosub, calldepth, val, reg, vp, byref, arg] relative to the activation: " + json.dumps(b[:60]),
                            "expected": "StackMon.tla: same boundary in the same context => same depths; expression stacks empty at boundaries"},
